@@ -269,6 +269,7 @@ func Generate(p *Profile, seed uint64) *Scenario {
 	crashed := map[int]bool{}
 
 	blocksMade := 0
+	justReorged, lastDels, lastAdds := false, 0, -1
 	for blocksMade < maxBlocks && len(sc.Steps) < 400 {
 		st := chain[tip].post
 		switch {
@@ -289,6 +290,7 @@ func Generate(p *Profile, seed uint64) *Scenario {
 			}
 			if target != tip {
 				tip = target
+				justReorged = true
 				sc.Steps = append(sc.Steps, Step{Op: "tip", Pick: target, Lat: lat()})
 				sc.Steps = append(sc.Steps, Step{Op: "tick", Dt: 1 + net.Intn(6)})
 			}
@@ -352,6 +354,34 @@ func Generate(p *Profile, seed uint64) *Scenario {
 		// a block
 		dels := genDels(g, st, delBias)
 		adds := genAdds(g, st, addScale, p.MaxAdds)
+		if justReorged && lastAdds >= 0 && g.Pct(50) {
+			// twin block: right after a branch switch, a block with the same number of
+			// deletions and additions as the last block of the abandoned branch, but
+			// other leaves (same leaf count and deletion count, different forest)
+			adds = lastAdds
+			if nl := st.NumLive(); nl > 0 && lastDels > 0 {
+				seen := map[int]bool{}
+				dels = dels[:0]
+				for tries := 0; len(dels) < lastDels && len(dels) < nl && tries < 4*lastDels+8; tries++ {
+					pk := g.Intn(nl)
+					if !seen[pk] {
+						seen[pk] = true
+						dels = append(dels, pk)
+					}
+				}
+				sort.Sort(sort.Reverse(sort.IntSlice(dels)))
+				// picks are applied without replacement: keep each below the shrinking live count
+				for i := range dels {
+					if dels[i] >= nl-i {
+						dels[i] = nl - i - 1
+					}
+				}
+			} else if lastDels == 0 {
+				dels = nil
+			}
+		}
+		justReorged = false
+		lastDels, lastAdds = len(dels), adds
 		ctr++
 		step := Step{Op: "block", Dels: dels, Adds: adds, Seed: g.Next(), Lat: lat()}
 		sc.Steps = append(sc.Steps, step)
